@@ -31,7 +31,7 @@ func TestMain(m *testing.M) {
 
 // Op is one hostile step.
 type Op struct {
-	Kind    string `json:"kind"` // frame | reg | flood | floodnoread | halfframe | terminate | unregister | dirinfo
+	Kind    string `json:"kind"` // frame | reg | flood | floodnoread | halfframe | terminate | unregister | dirinfo | regburst | multiflood
 	Svc     string `json:"svc"`  // pong | bomb | dir | unknown
 	Obj     int    `json:"obj"`  // 0: object 1; 1..: sacrificial object; -1: wrong id
 	Action  uint32 `json:"action"`
@@ -43,6 +43,9 @@ type Op struct {
 	Signal  uint32 `json:"signal,omitempty"`
 	Unreg   bool   `json:"unreg,omitempty"`
 	Target  string `json:"target,omitempty"` // unregister: pong | bomb | dir | unknown
+	Rounds  int    `json:"rounds,omitempty"` // regburst: connections, one after the other
+	Conns   int    `json:"conns,omitempty"`  // multiflood: concurrent connections
+	Stall   int    `json:"stall,omitempty"`  // multiflood: µs the object is kept busy first
 }
 
 type Case struct {
@@ -90,7 +93,7 @@ var dirActions = []uint32{100, 101, 102, 104, 105, 108, 0, 1, 2, 5, 6}
 func genCase(t *rapid.T) Case {
 	var c Case
 	n := rapid.IntRange(2, 25).Draw(t, "n")
-	kinds := []string{"frame", "frame", "frame", "frame", "reg", "reg", "reg", "dirinfo", "flood", "halfframe", "terminate", "unregister"}
+	kinds := []string{"frame", "frame", "frame", "frame", "reg", "reg", "reg", "dirinfo", "flood", "halfframe", "terminate", "unregister", "regburst", "multiflood"}
 	if vt.Thorough() {
 		kinds = append(kinds, "floodnoread")
 	}
@@ -134,6 +137,22 @@ func genCase(t *rapid.T) Case {
 			op.Type = rapid.SampledFrom([]uint8{1, 1, 4}).Draw(t, "ttype")
 		case "unregister":
 			op.Target = rapid.SampledFrom([]string{"pong", "bomb", "unknown", "dir"}).Draw(t, "target")
+		case "regburst":
+			// connections which subscribe a few times, send all their
+			// unregisterEvent calls in one write and vanish without reading
+			op.Svc = rapid.SampledFrom([]string{"dir", "bomb", "pong"}).Draw(t, "bsvc")
+			op.Obj = 0
+			op.N = rapid.IntRange(1, 6).Draw(t, "regs")
+			op.Rounds = rapid.SampledFrom([]int{1, 5, 20, 40}).Draw(t, "rounds")
+		case "multiflood":
+			// several connections call a sacrificial object which is busy and
+			// has its own terminate request queued
+			op.Svc = "pong"
+			op.Obj = rapid.IntRange(1, 2).Draw(t, "sacrificial")
+			op.Conns = rapid.IntRange(2, 8).Draw(t, "conns")
+			op.N = rapid.SampledFrom([]int{5, 12, 30}).Draw(t, "percall")
+			op.Stall = rapid.SampledFrom([]int{0, 2000, 20000}).Draw(t, "stall")
+			op.Type = rapid.SampledFrom([]uint8{1, 1, 4}).Draw(t, "ttype")
 		}
 		c.Ops = append(c.Ops, op)
 	}
@@ -378,6 +397,84 @@ func checkCase(c Case) error {
 			}
 			if w.terminated[id] != "yes" {
 				w.terminated[id] = state
+			}
+		case "regburst":
+			floods++
+			signal := map[string]uint32{"dir": 106, "bomb": 100, "pong": 102}[op.Svc]
+			for r := 0; r < op.Rounds; r++ {
+				bc, err := netkit.Dial(env.Addr)
+				if err != nil {
+					break
+				}
+				if !bc.Authenticate("u", "t", short) {
+					bc.Close()
+					break
+				}
+				reg := func(action uint32, k int) netkit.Frame {
+					b := binary.LittleEndian.AppendUint32(nil, 1)
+					b = binary.LittleEndian.AppendUint32(b, signal)
+					b = binary.LittleEndian.AppendUint64(b, uint64(1000*r+k))
+					return netkit.Frame{Type: netkit.Call, ID: bc.NextID(), Service: sid, Object: 1, Action: action, Payload: b}
+				}
+				for k := 0; k < op.N; k++ {
+					f := reg(0, k)
+					from := len(bc.Frames())
+					bc.Send(f)
+					bc.WaitFrame(from, func(g netkit.Frame) bool { return g.ID == f.ID }, short)
+				}
+				var burst []byte
+				for k := 0; k < op.N; k++ {
+					burst = append(burst, reg(1, k).Encode()...)
+				}
+				bc.SendRaw(burst)
+				bc.Close()
+			}
+		case "multiflood":
+			floods++
+			id := w.sacr[(op.Obj-1)%len(w.sacr)]
+			var conns []*netkit.RawClient
+			for k := 0; k < op.Conns; k++ {
+				fc, err := netkit.Dial(env.Addr)
+				if err != nil {
+					break
+				}
+				if !fc.Authenticate("u", "t", short) {
+					fc.Close()
+					break
+				}
+				conns = append(conns, fc)
+			}
+			if op.Stall > 0 {
+				h.Send(netkit.Frame{Type: netkit.Call, ID: h.NextID(), Service: w.pongID, Object: id, Action: 100, Payload: netkit.StringPayload(fmt.Sprintf("stall~%d", op.Stall))})
+			}
+			mid := h.NextID()
+			from := len(h.Frames())
+			h.Send(netkit.Frame{Type: op.Type, ID: mid, Service: w.pongID, Object: id, Action: 3, Payload: binary.LittleEndian.AppendUint32(nil, id)})
+			done := make(chan struct{}, len(conns))
+			for _, fc := range conns {
+				go func(fc *netkit.RawClient) {
+					for k := 0; k < op.N; k++ {
+						if fc.Send(netkit.Frame{Type: netkit.Call, ID: fc.NextID(), Service: w.pongID, Object: id, Action: 100, Payload: netkit.StringPayload("x")}) != nil {
+							break
+						}
+					}
+					done <- struct{}{}
+				}(fc)
+			}
+			for range conns {
+				<-done
+			}
+			state := "maybe"
+			if op.Type == netkit.Call {
+				if r, _, ok := h.WaitFrame(from, func(f netkit.Frame) bool { return f.ID == mid }, short); ok && r.Type == netkit.Reply {
+					state = "yes"
+				}
+			}
+			if w.terminated[id] != "yes" {
+				w.terminated[id] = state
+			}
+			for _, fc := range conns {
+				fc.Close()
 			}
 		case "unregister":
 			target := w.svcID(op.Target)
